@@ -13,6 +13,9 @@ PREFIXES = ["C11.", "Any.Crash"]
 def run(chk):
     cerlib.run_config(chk, "C11", PREFIXES)
     cerlib.run_config(chk, "C11client", PREFIXES)
+    # credProps next to other extension requests, on authenticators with and without PRF support (the configuration C14
+    # uses for what the client emits)
+    cerlib.run_config(chk, "C14emit", PREFIXES)
     cerlib.random_histories(chk, PREFIXES, quick_n=0)
     cerlib.finish_cov(chk, "every element of the C11 product is one behaviour (registration followed by an assertion)", True,
                       "the product named in the property's quantifier is enumerated completely")
